@@ -148,6 +148,22 @@ def run_schedule(fns, base, segments, check_boundary):
     return [k.result for k in kids], [k.steps for k in kids], problems
 
 
+def advance_until(kid, opnames, nth=1):
+    """grant operations until the process is about to perform the nth operation whose name is in opnames (or finishes)"""
+    seen = 0
+    while True:
+        kid.wait_request()
+        if kid.done:
+            return False
+        opn = kid.pending.split(" ", 1)[-1] if kid.pending else None
+        if opn in opnames:
+            seen += 1
+            if seen >= nth:
+                return True
+        if not kid.grant():
+            return False
+
+
 def run(ctx):
     res = common.Result()
     rng = ctx["rng"]
@@ -395,14 +411,12 @@ def run(ctx):
         results, steps, problems = run_schedule([worker(0, d0), worker(1, d0)], d0, [], lambda: None)
         t1 = run_schedule.last_traces[1]
         shutil.rmtree(d0, ignore_errors=True)
-        cand = [a for a, opn in enumerate(t1) if opn == "open" and a + 1 < len(t1) and t1[a + 1] == "write1"][:2]
-        for a in cand:
+        for a in (1, 2):
             d = os.path.join(tmp, "run")
             os.makedirs(d)
             kids = [Child(worker(0, d), d), Child(worker(1, d), d)]
-            for _ in range(a):
-                if not kids[1].grant():
-                    break
+            # the late keeper is stopped right before its first / its second opening of a file (the blob it is about to write)
+            advance_until(kids[1], ("open",), nth=a)
             while kids[0].grant():
                 pass
             bad = None
@@ -425,6 +439,77 @@ def run(ctx):
             res.nontrivial("different length %d" % a)
             if bad:
                 res.violations.append({"what": bad, "input": {"scenario": "two keepers whose results differ in length, late keeper stopped after %d operations" % a,
+                                                                "late_keeper_operations": t1}, "kf": None})
+            shutil.rmtree(d, ignore_errors=True)
+    finally:
+        shutil.rmtree(tmp, ignore_errors=True)
+    # a result type written by a user codec of the generic kind (it is handed a location and writes the file itself, in two
+    # chunks): early keeper, late keeper stepped operation by operation, a reader in between - the reader always gets the complete value
+    tmp = tempfile.mkdtemp(prefix="ddsverif_c07g_")
+    try:
+        ws = os.path.join(tmp, "ws")
+        os.makedirs(ws)
+        gm = "c7g_%d" % os.getpid()
+        with open(os.path.join(ws, gm + ".py"), "w") as fh:
+            fh.write("import dds\nfrom dds.codec import codec_registry\nfrom dds.structures import CodecProtocol, ProtocolRef\n"
+                     "from dds.structures_utils import SupportedTypeUtils as STU\n\n"
+                     "class Arr(object):\n    def __init__(self, n):\n        self.n = n\n\n"
+                     "class ArrCodec(CodecProtocol):\n    def ref(self):\n        return ProtocolRef('user.arr')\n\n"
+                     "    def handled_types(self):\n        return [STU.from_type(Arr)]\n\n"
+                     "    def serialize_into(self, blob, loc):\n        with open(str(loc), 'wb') as f:\n            f.write(b'A' * blob.n)\n\n"
+                     "    def deserialize_from(self, loc):\n        with open(str(loc), 'rb') as f:\n            return Arr(len(f.read()))\n\n"
+                     "codec_registry().add_codec(ArrCodec())\n\n"
+                     "def g():\n    return Arr(4000)\n\ndef f0():\n    return dds.keep('/w/arr', g).n\n")
+
+        def gworker(d):
+            return evaluate(ws, gm, gm + "_none", d + "/internal", d + "/data", None)
+
+        def greader(d):
+            def fn():
+                import importlib
+                sys.path.insert(0, ws)
+                import dds
+                importlib.import_module(gm)
+                dds.set_store("local", internal_dir=d + "/internal", data_dir=d + "/data")
+                return dds.load("/w/arr").n
+            return fn
+        d0 = os.path.join(tmp, "d0")
+        os.makedirs(d0)
+        results, steps, problems = run_schedule([gworker(d0), gworker(d0)], d0, [], lambda: None)
+        t1 = run_schedule.last_traces[1]
+        shutil.rmtree(d0, ignore_errors=True)
+        if any(r is None or r[0] != "ok" or r[1] != 4000 for r in results):
+            res.violations.append({"what": "two keepers of a value written by a user codec of the generic kind: results %s" % (results,),
+                                   "input": {"scenario": "generic codec, round robin"}, "kf": None})
+        # the late keeper is stopped right before its first / its second opening of a file (it has found the store cold and
+        # computed its value: what it opens next is the blob it is about to write)
+        for a in (1, 2):
+            d = os.path.join(tmp, "run")
+            os.makedirs(d)
+            kids = [Child(gworker(d), d), Child(gworker(d), d)]
+            advance_until(kids[1], ("open",), nth=a)
+            while kids[0].grant():
+                pass
+            bad = None
+            nobs = 0
+            if kids[0].result is None or kids[0].result[0] != "ok" or kids[0].result[1] != 4000:
+                bad = "the early keeper returned %r" % (kids[0].result,)
+            while bad is None:
+                kids[1].wait_request()
+                nobs += 1
+                ob1 = in_child(greader(d))
+                if ob1[0] != "ok" or ob1[1] != 4000:
+                    bad = "after the early keeper returned, a load of the value (4000 bytes, written by a user codec of the generic kind) gives %r while the late keeper is at operation %d (after %s)" % (
+                        ob1[1], len(kids[1].trace), kids[1].trace[-1] if kids[1].trace else None)
+                if not kids[1].grant():
+                    break
+            while kids[1].grant():
+                pass
+            res.evaluations += 1 + nobs
+            res.count("scenario_generic_codec_late_keeper")
+            res.nontrivial("generic codec %d" % a)
+            if bad:
+                res.violations.append({"what": bad, "input": {"scenario": "user codec of the generic kind, late keeper stopped after %d operations" % a,
                                                                 "late_keeper_operations": t1}, "kf": None})
             shutil.rmtree(d, ignore_errors=True)
     finally:
